@@ -320,8 +320,17 @@ class Check:
             d = REPLAY_DIR / self.prop
             d.mkdir(parents=True, exist_ok=True)
             replay_path = d / f"{self.tier}_{self.seed}.json"
+            kept, per = [], {}
+            for v in self.violations:
+                g = (v["clause"], str(v["key"].get("source")))
+                per[g] = per.get(g, 0) + 1
+                if per[g] <= 20:
+                    kept.append(v)
             replay_path.write_text(json.dumps({"property": self.prop, "tier": self.tier, "seed": self.seed,
-                                               "violations": self.violations[:50]}, indent=1, default=str))
+                                               "repo": str(REPO), "n_violations": len(self.violations),
+                                               "how_to_replay": f"./check {self.prop} --replay {replay_path} (re-runs the "
+                                               "deterministic check at this tier/seed; each violation lists its concrete inputs)",
+                                               "violations": kept}, indent=1, default=str))
         cov: Dict[str, Any] = {
             "states": self.states, "transitions": self.transitions,
             "traces_validated_against_impl": self.traces,
@@ -340,12 +349,12 @@ class Check:
               "violations": len(self.violations)}
         (EVIDENCE_DIR / f"{self.prop}.json").write_text(json.dumps(ev, indent=1, default=str) + "\n")
         if self.violations:
-            seen = set()
+            seen: Dict[str, int] = {}
             for v in self.violations:
-                if v["clause"] in seen:
-                    continue
-                seen.add(v["clause"])
-                print(f"  violated clause {v['clause']} key={json.dumps(v['key'], default=str)[:300]}")
+                seen[v["clause"]] = seen.get(v["clause"], 0) + 1
+                if seen[v["clause"]] == 1:
+                    print(f"  violated clause {v['clause']} key={json.dumps(v['key'], default=str)[:300]}")
+            print("  violation counts: " + json.dumps(seen))
             print(f"VIOLATION property={self.prop} replay={replay_path}")
             return 1
         print(f"OK property={self.prop} tier={self.tier} seed={self.seed} states={self.states} "
@@ -355,3 +364,41 @@ class Check:
 
 def fhex(x: float) -> str:
     return float(x).hex()
+
+
+# ---------------------------------------------------------------------------
+# trace validation (code -> spec)
+# ---------------------------------------------------------------------------
+
+def validate_trace(chk: "Check", module: str, lines: List[Dict[str, Any]], what: str, *,
+                   consts: str = "", timeout: int = 1800, dfs: bool = False) -> List[List[Any]]:
+    """Validate a batch of projected trace lines against spec/<module>.tla (a total monitor).
+
+    The trace spec consumes every line, accumulates <<id, clause>> pairs in `fails` and prints
+    RESULT {consumed, fails} when done.  Returns the list of [id, clause] failures; raises
+    MachineryError unless every line was consumed (a trace the monitor cannot read is a machinery
+    failure, never a pass).
+    """
+    if not lines:
+        raise MachineryError(f"{module}: empty trace batch")
+    sdir = scratch()
+    tf = sdir / f"{module}_{len(lines)}_{int(time.time()*1000) % 10000000}.ndjson"
+    with open(tf, "w") as f:
+        for ln in lines:
+            f.write(json.dumps(ln, separators=(",", ":")) + "\n")
+    cfg = (("CONSTANTS\n" + consts) if consts else "") + "SPECIFICATION TraceSpec\nINVARIANT Report\n"
+    res = run_tlc(module, cfg, workers=1, env={"TRACE_FILE": str(tf)}, tags=["RESULT"], timeout=timeout,
+                  name=f"{module}_trace", dfs_queue=dfs)
+    chk.tlc(res, f"{module}: {what} ({len(lines)} trace lines)")
+    out = res.out("RESULT")
+    if not out:
+        raise MachineryError(f"{module}: trace monitor produced no RESULT (log {res.log})")
+    best = max(out, key=lambda o: o["consumed"])
+    if best["consumed"] != len(lines):
+        raise MachineryError(f"{module}: monitor consumed {best['consumed']} of {len(lines)} lines")
+    if not os.environ.get("PBV_KEEP"):
+        try:
+            tf.unlink()
+        except OSError:
+            pass
+    return [list(x) for x in best["fails"]]
